@@ -28,6 +28,7 @@ def pinned : Tables :=
     unaryParse := pinnedParse500
     initParse := pinnedParse500
     exchangeParse := pinnedExchangeParse
+    uploadParse := pinnedParse500
     unaryDeser := pinnedDeser
     initDeser := pinnedDeser
     readWrapsBatchValidation := false
